@@ -1187,6 +1187,18 @@ def run_modref_parts_permanent(prog, tier, repo):
 
     def promoted_before(b, target_bb):
         cfg = cfg_of(b)
+        # `parts.iter().for_each(|p| self.make_permanent(*p))`: the promotion runs inside the adapter call that receives the closure
+        for cid_ in prog.closures_of.get(b.id, []):
+            cb_ = prog.bodies.get(cid_)
+            if cb_ is None or not any(not bl.cleanup and bl.term[0] == 'call' and callee(bl.term)[0] in promoters for bl in cb_.blocks):
+                continue
+            for bi, bl in enumerate(b.blocks):
+                t = bl.term
+                if bl.cleanup or t[0] != 'call':
+                    continue
+                if any(o[0] in ('c', 'm') and strip_refs(b.locals[o[1].local]).k == 'closure'
+                       and strip_refs(b.locals[o[1].local]).id == cid_ for o in t[3]) and cfg.nodes_dominate([bi], target_bb):
+                    return True
         for bi, bl in enumerate(b.blocks):
             t = bl.term
             if bl.cleanup or t[0] != 'call' or callee(t)[0] not in promoters:
